@@ -31,8 +31,8 @@ type c18Case struct {
 	LB      string `json:"lb"` // rr rand la wrr nginx wrand wla
 	N       int    `json:"n"`  // number of URLs (unweighted balancers)
 	Weights []int  `json:"weights,omitempty"`
-	Script  string `json:"script,omitempty"` // tokens: S | F<k><O|E|P>
-	Mode    string `json:"mode,omitempty"`   // "" (script) | "conc"
+	Script  string `json:"script,omitempty"` // tokens: S | F<k><O|E|P> | C<id,id,..> (client.SetURI of these servers)
+	Mode    string `json:"mode,omitempty"`   // "" (script) | "conc" | "burst" (G x M direct Handler calls at once, then the script) | "rand"
 	G       int    `json:"g,omitempty"`
 	M       int    `json:"m,omitempty"`
 	Outs    string `json:"outs,omitempty"` // conc mode: outcome pattern, call c gets Outs[c%len]
@@ -65,6 +65,7 @@ type c18Obs struct {
 	PerSrv  []int          `json:"per_server,omitempty"`
 	Results map[string]int `json:"results,omitempty"`
 	FinalSt []int64        `json:"final_st,omitempty"`
+	RestSt  []int64        `json:"rest_st"` // burst mode: the balancer's fields once the burst has finished
 	// rand mode
 	Vals   []int64 `json:"vals,omitempty"`
 	SeedOK *bool   `json:"seed_ok,omitempty"` // rand.Seed really controls the global generator
@@ -280,6 +281,7 @@ func runScript(c *c18Case, obs *c18Obs, b built) {
 	scripted := func(ctx context.Context, request []byte, next core.NextIOHandler) ([]byte, error) {
 		k := int(atomic.LoadInt32(&starting))
 		u := -1
+		mu.Lock()
 		if cc := core.GetClientContext(ctx); cc != nil && cc.URL != nil {
 			if j, ok := pos[cc.URL.Host]; ok {
 				u = j
@@ -287,7 +289,6 @@ func runScript(c *c18Case, obs *c18Obs, b built) {
 				u = -2
 			}
 		}
-		mu.Lock()
 		ch := release[k]
 		mu.Unlock()
 		enteredCh <- entered{k, u}
@@ -302,10 +303,40 @@ func runScript(c *c18Case, obs *c18Obs, b built) {
 	}
 	client.Use(b.lb)
 	client.Use(core.IOHandler(scripted))
+	if c.Mode == "burst" {
+		burst(c, obs, b, client, pos)
+		if obs.Fatal != "" {
+			return
+		}
+		obs.RestSt = snap(c.LB, b.lb)
+	}
+	weighted := len(b.order) > 0 || len(c.Weights) > 0
 	inFlight := map[int]bool{}
 	next := 0
 	for _, tok := range strings.Fields(c.Script) {
 		switch tok[0] {
+		case 'C':
+			// the client's URL list changes (between calls; calls in flight keep what they read)
+			var us []string
+			var hs []string
+			for _, f := range strings.Split(tok[1:], ",") {
+				if id, err := strconv.Atoi(f); err == nil {
+					us = append(us, uri(id))
+					hs = append(hs, host(id))
+				}
+			}
+			client.SetURI(us...)
+			if !weighted {
+				mu.Lock()
+				for h := range pos {
+					delete(pos, h)
+				}
+				for j, h := range hs {
+					pos[h] = j
+				}
+				mu.Unlock()
+			}
+			obs.Events = append(obs.Events, c18Event{Ev: "C", K: len(us), U: -1, St: snap(c.LB, b.lb)})
 		case 'S':
 			k := next
 			next++
@@ -381,6 +412,119 @@ func runScript(c *c18Case, obs *c18Obs, b built) {
 		case <-doneCh:
 		case <-time.After(waitLimit):
 		}
+	}
+}
+
+type ioPlugin interface {
+	Handler(ctx context.Context, request []byte, next core.NextIOHandler) ([]byte, error)
+}
+
+// burst: G goroutines call the balancer's Handler M times each, all at once, through its public
+// Handler method with a ClientContext of the client (no codec, so the callers really overlap
+// inside the balancer); the downstream outcome of call number c is Outs[c%len].
+func burst(c *c18Case, obs *c18Obs, b built, client *core.Client, pos map[string]int) {
+	h, ok := b.lb.(ioPlugin)
+	if !ok {
+		obs.Fatal = "balancer has no Handler method"
+		return
+	}
+	n := len(b.hosts)
+	per := make([]int64, n)
+	var invalid, seq int64
+	outs := c.Outs
+	if outs == "" {
+		outs = "O"
+	}
+	next := func(ctx context.Context, request []byte) ([]byte, error) {
+		k := int(atomic.AddInt64(&seq, 1))
+		good := false
+		if cc := core.GetClientContext(ctx); cc != nil && cc.URL != nil {
+			if j, found := pos[cc.URL.Host]; found {
+				atomic.AddInt64(&per[j], 1)
+				good = true
+			}
+		}
+		if !good {
+			atomic.AddInt64(&invalid, 1)
+		}
+		switch outs[k%len(outs)] {
+		case 'O':
+			return nil, nil
+		case 'E':
+			return nil, errors.New("down")
+		default:
+			panic("boom")
+		}
+	}
+	var wg sync.WaitGroup
+	var mu sync.Mutex
+	results := map[string]int{}
+	crashes := []string{}
+	start := make(chan struct{})
+	for g := 0; g < c.G; g++ {
+		wg.Add(1)
+		go func() {
+			defer wg.Done()
+			local := map[string]int{}
+			<-start
+			for m := 0; m < c.M; m++ {
+				var err error
+				var pv interface{}
+				func() {
+					defer func() { pv = recover() }()
+					cc := core.NewClientContext()
+					cc.Init(client)
+					_, err = h.Handler(core.WithContext(context.Background(), cc), nil, next)
+				}()
+				r := "O"
+				msg := ""
+				switch {
+				case pv != nil:
+					if fmt.Sprint(pv) == "boom" {
+						r = "P"
+					} else {
+						r, msg = "X", fmt.Sprint(pv)
+					}
+				case err != nil:
+					if _, isp := err.(*core.PanicError); isp && strings.Contains(err.Error(), "boom") {
+						r = "P"
+					} else if err.Error() == "down" {
+						r = "E"
+					} else {
+						r, msg = "X", err.Error()
+					}
+				}
+				local[r]++
+				if msg != "" {
+					mu.Lock()
+					if len(crashes) < 5 {
+						crashes = append(crashes, msg)
+					}
+					mu.Unlock()
+				}
+			}
+			mu.Lock()
+			for k, v := range local {
+				results[k] += v
+			}
+			mu.Unlock()
+		}()
+	}
+	close(start)
+	fin := make(chan struct{})
+	go func() { wg.Wait(); close(fin) }()
+	select {
+	case <-fin:
+	case <-time.After(5 * time.Minute):
+		obs.Fatal = "concurrent callers did not finish"
+		return
+	}
+	obs.Calls = c.G * c.M
+	obs.Invalid = int(invalid)
+	obs.Crashes = crashes
+	obs.Results = results
+	for _, x := range per {
+		obs.PerSrv = append(obs.PerSrv, int(x))
 	}
 }
 
